@@ -280,8 +280,13 @@ def token_spec(rng, idx):
                 over2 = {"c": oc, "fortran": of}
                 if rng.random() < 0.5:
                     over2["python"] = rng.random() < 0.5
-            entries.append({"kind": "fn", "indent": indent, "decl": "void %s(double first, int second)" % tok,
-                            "tok": tok, "shape": "overload", "over": over2})
+            # (its first parameter has a name of its own: the only trace this signature leaves where the
+            #  overloads share one name, as in the Lua dispatch function)
+            if rng.random() < 0.6:
+                over2["lua"] = rng.random() < 0.5
+            argtok = "zp%dov%dq" % (idx, counter[0])  # (must not contain the function's own token)
+            entries.append({"kind": "fn", "indent": indent, "decl": "void %s(double %s, int second)" % (tok, argtok),
+                            "tok": tok, "shape": "overload", "over": over2, "argtok": argtok})
 
     def cont_over():
         # container-level override (class / namespace): inherited by the members
@@ -525,6 +530,15 @@ def render_token_library(spec, wp, wl):
             t["members"] += 1
             for l in LANGS:
                 t[l] = t[l] or bool(eff[l])
+        if e.get("argtok"):
+            # a signature that is off for a language leaves no trace there (absence only: where and
+            # whether parameter names of a wrapped signature show up is the emitter's business)
+            tokens[e["argtok"]] = {l: (None if eff[l] else False) for l in LANGS}
+            if eff["c"]:
+                # the Fortran module declares the bind(C) interface of every C wrapper, dummy argument
+                # names included: that block belongs to the C wrapper
+                tokens[e["argtok"]]["fortran"] = None
+            tokens[e["argtok"]].update(shape="overload-parameter", lua_unsupported=False)
         if e["shape"] not in LUA_OK:
             cur["lua_unsupported"] = True
         if e["shape"] == "overload":
@@ -558,6 +572,8 @@ def token_jobs(seeds, n):
             toks = {}
             for t, eff in tokens.items():
                 e = {l: bool(eff[l]) for l in LANGS}
+                if eff["shape"] == "overload-parameter":
+                    e = {l: eff[l] for l in LANGS}  # None = not asserted, False = must be absent
                 e["shape"] = eff["shape"]
                 if eff["shape"] in ("namespace", "class", "struct"):
                     # a namespace is a declaration too.  Only one direction is asserted: when it is off
